@@ -134,7 +134,20 @@ func genStop(r *Rng, i int, tier string) string {
 	switch m {
 	case "":
 	case "paused":
-		s += fmt.Sprintf(" pause=%s:%d stop=paused:%d", []string{"pre.in", "arch.fetch", "post.done", "lq.inserted"}[r.Intn(4)], 1+r.Intn(3), []int{0, 5, 60, 200}[r.Intn(4)])
+		// stop while paused: workers sit in the pause acknowledgement, a postprocessor may be half-way through
+		// handing a link-rich page's outlinks to the (paused) finisher, a preprocessor may be blocked sending on
+		s += fmt.Sprintf(" pause=%s:%d stop=paused:%d", []string{"pre.in", "arch.fetch", "post.in", "post.in", "post.done", "lq.inserted"}[r.Intn(6)], 1+r.Intn(3), []int{0, 5, 60, 200, 400}[r.Intn(5)])
+		if !strings.Contains(s, "maxhops=1") && r.Chance(60) {
+			s += " maxhops=1"
+		}
+		if r.Chance(60) { // few workers = small channel buffers; even site seeds have link-rich pages
+			s = strings.Replace(s, fmt.Sprintf(" w=%d ", w), " w=1 ", 1)
+			if f := strings.Fields(s); len(f) > 0 && strings.HasPrefix(f[0], "site=") {
+				if n, err := strconv.ParseUint(strings.TrimPrefix(f[0], "site="), 10, 64); err == nil && n%2 == 1 {
+					s = strings.Replace(s, f[0], fmt.Sprintf("site=%d", n+1), 1)
+				}
+			}
+		}
 	default:
 		s += fmt.Sprintf(" stop=%s:%d", m, 1+r.Intn(4))
 	}
